@@ -44,6 +44,10 @@ def step (p : St) : List String → St × String
   | ["next"] =>
     let r := p.nextServer
     (r.2, resStr p r.1)
+  | ["nextm"] =>
+    -- the caller mutates its copy of the URL afterwards: nothing happens to the pool
+    let r := p.nextServer
+    (r.2, resStr p r.1)
   | ["pnext", a, b] =>
     match a.toNat?, b.toNat? with
     | some a, some b =>
